@@ -478,6 +478,8 @@ static std::string runProduct(const Case& cs, Cur& cu)
   throw std::runtime_error("product op");
 }
 
+#include "impl_extra.hh"
+
 static bool isKernel(const std::string& o)
 {
   return o == "mv" || o == "mtv" || o == "umv" || o == "umtv" || o == "umhv" || o == "mmv" || o == "mmtv" || o == "mmhv" || o == "usmv" || o == "usmtv" || o == "usmhv";
@@ -520,7 +522,8 @@ int main(int argc, char** argv)
       if (t[0] != FNAME) throw std::runtime_error("wrong field for this TU");
       Case cs{t[1], t[2], t[3], std::stoi(t[4]), std::stoi(t[5]), std::stoi(t[6])};
       Cur cu{t, 7};
-      if (isKernel(cs.op)) o = runKernel(cs, cu);
+      if (cs.op[0] == 'x') o = runExtra(cs, cu);
+      else if (isKernel(cs.op)) o = runKernel(cs, cu);
       else if (isVector(cs.op)) o = runVector(cs, cu);
       else if (isProduct(cs.op)) o = runProduct(cs, cu);
       else o = runMatrix(cs, cu);
